@@ -78,313 +78,7 @@ fn long_run(rep: &mut Rep, id: &str, total: usize, window: usize, seed_ids: Opti
     add_counters(rep, &w);
 }
 
-// ------------------------------------------------------------------ multi-thread stress
-
-struct PipeState {
-    buf: VecDeque<u8>,
-    waker: Option<Waker>,
-    closed: bool,
-}
-
-struct Pipe {
-    st: Mutex<PipeState>,
-    cv: Condvar,
-}
-
-impl Pipe {
-    fn new() -> Arc<Pipe> {
-        Arc::new(Pipe { st: Mutex::new(PipeState { buf: VecDeque::new(), waker: None, closed: false }), cv: Condvar::new() })
-    }
-    fn push(&self, b: &[u8]) {
-        let w = {
-            let mut s = self.st.lock().unwrap();
-            s.buf.extend(b.iter().copied());
-            s.waker.take()
-        };
-        self.cv.notify_all();
-        if let Some(w) = w {
-            w.wake();
-        }
-    }
-    fn close(&self) {
-        let w = {
-            let mut s = self.st.lock().unwrap();
-            s.closed = true;
-            s.waker.take()
-        };
-        self.cv.notify_all();
-        if let Some(w) = w {
-            w.wake();
-        }
-    }
-    /// blocking read of whatever is available (up to 64 KiB); None at close
-    fn pull(&self, timeout_ms: u64) -> Option<Vec<u8>> {
-        let mut s = self.st.lock().unwrap();
-        if s.buf.is_empty() && !s.closed {
-            let (g, _) = self.cv.wait_timeout(s, std::time::Duration::from_millis(timeout_ms)).unwrap();
-            s = g;
-        }
-        if s.buf.is_empty() {
-            return if s.closed { None } else { Some(Vec::new()) };
-        }
-        let n = s.buf.len().min(65536);
-        Some(s.buf.drain(..n).collect())
-    }
-}
-
-struct PipeReader(Arc<Pipe>);
-struct PipeWriter(Arc<Pipe>);
-
-impl AsyncRead for PipeReader {
-    fn poll_read(self: Pin<&mut Self>, cx: &mut TaskCx<'_>, out: &mut [u8]) -> Poll<io::Result<usize>> {
-        let mut s = self.0.st.lock().unwrap();
-        if !s.buf.is_empty() {
-            let n = out.len().min(s.buf.len());
-            for b in out.iter_mut().take(n) {
-                *b = s.buf.pop_front().unwrap();
-            }
-            return Poll::Ready(Ok(n));
-        }
-        if s.closed {
-            return Poll::Ready(Ok(0));
-        }
-        s.waker = Some(cx.waker().clone());
-        Poll::Pending
-    }
-}
-
-impl AsyncWrite for PipeWriter {
-    fn poll_write(self: Pin<&mut Self>, _cx: &mut TaskCx<'_>, b: &[u8]) -> Poll<io::Result<usize>> {
-        self.0.push(b);
-        Poll::Ready(Ok(b.len()))
-    }
-    fn poll_flush(self: Pin<&mut Self>, _cx: &mut TaskCx<'_>) -> Poll<io::Result<()>> {
-        Poll::Ready(Ok(()))
-    }
-    fn poll_close(self: Pin<&mut Self>, _cx: &mut TaskCx<'_>) -> Poll<io::Result<()>> {
-        Poll::Ready(Ok(()))
-    }
-}
-
-#[derive(Default)]
-struct BrokerReport {
-    violations: Vec<(String, String)>,
-    requests: u64,
-    max_outstanding: usize,
-    distinct_ids: usize,
-    sub_ids: usize,
-    decode_errors: u64,
-}
-
-fn broker(c2s: Arc<Pipe>, s2c: Arc<Pipe>, seed: u64) -> BrokerReport {
-    let mut rng = Rng::new(seed);
-    let mut rep = BrokerReport::default();
-    let mut buf: Vec<u8> = Vec::new();
-    let mut outstanding: HashSet<u16> = HashSet::new();
-    let mut pending: Vec<(SPacket, Option<u16>)> = Vec::new(); // ack to send, id it finishes
-    let mut ids: HashSet<u16> = HashSet::new();
-    let mut sub_ids: HashMap<u32, u64> = HashMap::new();
-    let mut done = false;
-    let mut idle = 0;
-    while !done {
-        match c2s.pull(1) {
-            None => break,
-            Some(b) => {
-                if b.is_empty() {
-                    idle += 1;
-                } else {
-                    idle = 0;
-                }
-                buf.extend(b)
-            }
-        }
-        loop {
-            let n = match rc::frame(&buf) {
-                Ok(Some(n)) => n,
-                Ok(None) => break,
-                Err(e) => {
-                    rep.violations.push(("C11/mt/wire-unsplittable".into(), e.0));
-                    done = true;
-                    break;
-                }
-            };
-            let pkt: Vec<u8> = buf.drain(..n).collect();
-            match rc::decode_client_packet(&pkt) {
-                Err(e) => {
-                    rep.decode_errors += 1;
-                    if rep.decode_errors < 3 {
-                        rep.violations.push(("C11/mt/malformed-packet".into(), format!("{e}: {:02x?}", &pkt[..pkt.len().min(32)])));
-                    }
-                }
-                Ok(CPacket::Connect(_)) => s2c.push(&SPacket::Connack { session_present: false, reason: 0, props: vec![] }.encode()),
-                Ok(CPacket::Publish(p)) => {
-                    if let Some(id) = p.id {
-                        rep.requests += 1;
-                        ids.insert(id);
-                        if !outstanding.insert(id) {
-                            rep.violations.push(("C11/duplicate-packet-id".into(), format!("PUBLISH uses packet identifier {id} while the acknowledgement of another operation with that identifier has not been sent yet ({} outstanding)", outstanding.len())));
-                        }
-                        let kind = if p.qos == 1 { AckKind::Puback } else { AckKind::Pubrec };
-                        pending.push((SPacket::Ack { kind, id, reason: 0, props: vec![], form: AckForm::Short2 }, if p.qos == 1 { Some(id) } else { None }));
-                    }
-                }
-                Ok(CPacket::Ack(a)) if a.kind == AckKind::Pubrel => {
-                    pending.push((SPacket::Ack { kind: AckKind::Pubcomp, id: a.id, reason: 0, props: vec![], form: AckForm::Short2 }, Some(a.id)));
-                }
-                Ok(CPacket::Subscribe(s)) => {
-                    rep.requests += 1;
-                    ids.insert(s.id);
-                    if !outstanding.insert(s.id) {
-                        rep.violations.push(("C11/duplicate-packet-id".into(), format!("SUBSCRIBE uses packet identifier {} still outstanding", s.id)));
-                    }
-                    match rc::find(&s.props, 11) {
-                        Some(rc::PVal::Var(v)) => {
-                            let c = sub_ids.entry(*v).or_insert(0);
-                            *c += 1;
-                            if *c > 1 {
-                                rep.violations.push(("C11/duplicate-subscription-id".into(), format!("subscription identifier {v} used by two subscribe() calls")));
-                            }
-                        }
-                        _ => rep.violations.push(("C11/subscribe-without-subscription-id".into(), "SUBSCRIBE without subscription identifier".into())),
-                    }
-                    pending.push((SPacket::Suback { id: s.id, props: vec![], reasons: vec![0; s.filters.len()] }, Some(s.id)));
-                }
-                Ok(CPacket::Unsubscribe(s)) => {
-                    rep.requests += 1;
-                    ids.insert(s.id);
-                    if !outstanding.insert(s.id) {
-                        rep.violations.push(("C11/duplicate-packet-id".into(), format!("UNSUBSCRIBE uses packet identifier {} still outstanding", s.id)));
-                    }
-                    pending.push((SPacket::Unsuback { id: s.id, props: vec![], reasons: vec![0; s.filters.len()] }, Some(s.id)));
-                }
-                Ok(CPacket::Pingreq) => pending.push((SPacket::Pingresp, None)),
-                Ok(CPacket::Disconnect(_)) => {
-                    done = true;
-                }
-                Ok(_) => {}
-            }
-            if outstanding.len() > rep.max_outstanding {
-                rep.max_outstanding = outstanding.len();
-            }
-        }
-        // release acknowledgements with random delay and reordering
-        let keep = if idle >= 1 { 0 } else { rng.below(48) };
-        while pending.len() > keep {
-            let k = rng.below(pending.len());
-            let (pkt, fin) = pending.swap_remove(k);
-            if let Some(id) = fin {
-                outstanding.remove(&id);
-            }
-            s2c.push(&pkt.encode());
-        }
-    }
-    rep.distinct_ids = ids.len();
-    rep.sub_ids = sub_ids.len();
-    s2c.close();
-    rep
-}
-
-fn mt_stress(rep: &mut Rep, id: &str, threads: usize, ops_per_thread: usize, seed: u64) {
-    let c2s = Pipe::new();
-    let s2c = Pipe::new();
-    let (mut ctx, handle) = Context::new();
-    let (r, w) = (PipeReader(s2c.clone()), PipeWriter(c2s.clone()));
-    let b = {
-        let (c2s, s2c) = (c2s.clone(), s2c.clone());
-        std::thread::spawn(move || broker(c2s, s2c, seed))
-    };
-    let ctx_thread = std::thread::spawn(move || {
-        futures::executor::block_on(async move {
-            ctx.set_up((r, w));
-            match ctx.connect(ConnectOpts::new().client_identifier("mt")).await {
-                Ok(_) => {}
-                Err(e) => return format!("connect failed: {e}"),
-            }
-            match ctx.run().await {
-                Ok(()) => "Ok".to_string(),
-                Err(e) => format!("{e}"),
-            }
-        })
-    });
-    let mut clients = Vec::new();
-    for t in 0..threads {
-        let mut h = handle.clone();
-        let seed = seed.wrapping_add(t as u64 * 7919);
-        clients.push(std::thread::spawn(move || {
-            let mut rng = Rng::new(seed);
-            let mut done = 0u64;
-            let mut errors = 0u64;
-            let mut n = 0;
-            while n < ops_per_thread {
-                // a batch of operations outstanding at once from this thread
-                let batch = 1 + rng.below(12);
-                let kinds: Vec<usize> = (0..batch).map(|_| rng.below(8)).collect();
-                let res: Vec<bool> = futures::executor::block_on(async {
-                    let mut futs: Vec<Pin<Box<dyn std::future::Future<Output = bool> + Send>>> = Vec::new();
-                    for (k, kind) in kinds.iter().enumerate() {
-                        let mut hh = h.clone();
-                        let topic = format!("t/{t}/{k}");
-                        let kind = *kind;
-                        futs.push(Box::pin(async move {
-                            match kind {
-                                0..=2 => hh.publish(PublishOpts::new().topic_name(&topic).qos(QoS::AtLeastOnce).payload(b"x")).await.is_ok(),
-                                3..=4 => hh.publish(PublishOpts::new().topic_name(&topic).qos(QoS::ExactlyOnce).payload(b"y")).await.is_ok(),
-                                5 => hh.subscribe(SubscribeOpts::new().subscription(&topic, SubscriptionOpts::new())).await.is_ok(),
-                                6 => hh.unsubscribe(UnsubscribeOpts::new().topic_filter(&topic)).await.is_ok(),
-                                _ => hh.ping().await.is_ok(),
-                            }
-                        }));
-                    }
-                    futures::future::join_all(futs).await
-                });
-                n += batch;
-                done += res.iter().filter(|x| **x).count() as u64;
-                errors += res.iter().filter(|x| !**x).count() as u64;
-            }
-            let _ = &mut h;
-            (done, errors)
-        }));
-    }
-    let mut done = 0;
-    let mut errors = 0;
-    let mut client_panics = 0;
-    for c in clients {
-        match c.join() {
-            Ok((d, e)) => {
-                done += d;
-                errors += e;
-            }
-            Err(_) => client_panics += 1,
-        }
-    }
-    let mut h = handle;
-    let _ = futures::executor::block_on(h.disconnect(poster::DisconnectOpts::new()));
-    drop(h);
-    let run_res = ctx_thread.join().unwrap_or_else(|_| "context thread panicked".into());
-    c2s.close();
-    let br = b.join().expect("harness: broker thread");
-    rep.add("evaluations", 1);
-    rep.add("mt_operations_completed", done as i64);
-    rep.add("mt_requests_seen_by_broker", br.requests as i64);
-    rep.add("id_consuming_operations", br.requests as i64);
-    rep.add("identifier_wraps", (br.requests / 65535) as i64);
-    rep.max("max_outstanding_reached", br.max_outstanding as i64);
-    rep.max("max_distinct_packet_ids_in_one_run", br.distinct_ids as i64);
-    rep.distinct(&(threads, ops_per_thread, seed));
-    for (sig, d) in &br.violations {
-        rep.violation(sig, id, &format!("multi-thread stress ({threads} client threads x {ops_per_thread} ops): {d}"));
-    }
-    if client_panics > 0 {
-        rep.violation("C11/panic/client-thread", id, &format!("{client_panics} client threads panicked while starting operations"));
-    }
-    if errors > 0 {
-        rep.violation("C11/mt/operation-failed", id, &format!("{errors} operations failed although the broker acknowledged everything; run() = {run_res}"));
-    }
-    if run_res != "Ok" {
-        rep.violation("C11/mt/run-ended", id, &format!("run() ended with {run_res}"));
-    }
-    rep.sample(|| format!("{id}: {done} operations from {threads} threads, broker saw {} identifier-consuming requests, {} distinct packet identifiers, {} subscription identifiers, max {} outstanding", br.requests, br.distinct_ids, br.sub_ids, br.max_outstanding));
-}
+use super::mt::mt_stress;
 
 pub fn run(rep: &mut Rep) {
     if rep.profile == "miri" {
@@ -392,7 +86,7 @@ pub fn run(rep: &mut Rep) {
         // shared identifier counters and the channels)
         rep.note("miri: per shard one 150-operation run across the identifier wrap and one 2-thread x 24-operation stress");
         long_run(rep, &format!("miri-long:{}", rep.shard), 150, 5, Some((65500 - (rep.shard as u16) * 7, 120 + rep.shard as u32)), rep.seed + rep.shard);
-        mt_stress(rep, &format!("miri-mt:{}", rep.shard), 2, 24, rep.seed.wrapping_mul(31).wrapping_add(rep.shard));
+        mt_stress(rep, &format!("miri-mt:{}", rep.shard), 2, 24, rep.seed.wrapping_mul(31).wrapping_add(rep.shard), false, "C11");
         return;
     }
     let mut idx = 0u64;
@@ -427,7 +121,7 @@ pub fn run(rep: &mut Rep) {
         let id = format!("mt:{k}:{threads}:{ops}");
         idx += 1;
         if rep.take(idx, &id) {
-            mt_stress(rep, &id, *threads, *ops, rep.seed.wrapping_mul(31).wrapping_add(k as u64));
+            mt_stress(rep, &id, *threads, *ops, rep.seed.wrapping_mul(31).wrapping_add(k as u64), k % 2 == 1, "C11");
         }
     }
     let _ = Prop::byte(1, 1);
